@@ -217,4 +217,82 @@ theorem inferTy_wf (v : PyVal) (h : v.encodableShape = true) : ∃ t, inferTy v 
   obtain ⟨t, ht, hwf, _⟩ := inferTy_wf_aux v h
   exact ⟨t, ht, hwf⟩
 
+/-! ### wherever the rules give a type, the code returns its rendering (no side condition) -/
+
+mutual
+theorem sigFromPy_of_inferTy : ∀ (v : PyVal) (t : Ty), inferTy v = some t → sigFromPy v = .ok t.render
+  | .none, t, h => by simp [inferTy] at h
+  | .bool _, t, h => by simp [inferTy] at h; subst h; simp [sigFromPy, Ty.render, Basic.code]
+  | .int cls n, t, h => by
+      cases cls <;> simp [inferTy, IntCls.basic?] at h <;> subst h <;>
+        simp [sigFromPy, IntCls.dbusSignature, intSig_eq, Ty.render, Basic.code]
+  | .float _, t, h => by simp [inferTy] at h; subst h; simp [sigFromPy, Ty.render, Basic.code]
+  | .str cls _, t, h => by
+      cases cls <;> simp [inferTy, StrCls.basic] at h <;> subst h <;>
+        simp [sigFromPy, StrCls.dbusSignature, Ty.render, Basic.code]
+  | .bytearray _, t, h => by simp [inferTy] at h; subst h; simp [sigFromPy, Ty.render, Basic.code]
+  | .list [], t, h => by simp [inferTy] at h; subst h; simp [sigFromPy, Ty.render]
+  | .list (x :: xs), t, h => by
+      simp only [inferTy] at h
+      simp only [sigFromPy]
+      split at h
+      · rename_i hs
+        cases hx : inferTy x with
+        | none => simp [hx] at h
+        | some tx =>
+          simp [hx] at h; subst h
+          simp [hs, sigFromPy_of_inferTy x tx hx, Ty.render]
+      · rename_i hs
+        simp at h; subst h; simp [hs, Ty.render]
+  | .tuple xs, t, h => by
+      simp only [inferTy] at h
+      cases hts : inferTys xs with
+      | none => simp [hts] at h
+      | some ts =>
+        simp [hts] at h; subst h
+        simp [sigFromPy, sigConcat_of_inferTys xs ts hts, Ty.render]
+  | .dict [], t, h => by simp [inferTy] at h; subst h; simp [sigFromPy, Ty.render, Basic.code]
+  | .dict ((k, v) :: rest), t, h => by
+      simp only [inferTy] at h
+      simp only [sigFromPy]
+      cases hk : inferLastKey ((k, v) :: rest) with
+      | none => simp [hk] at h
+      | some kt =>
+        simp only [hk] at h
+        rw [sigLastKey_of_inferLastKey ((k, v) :: rest) kt hk]
+        split at h
+        · rename_i hs
+          cases hv : inferTy v with
+          | none => simp [hv] at h
+          | some vt =>
+            simp [hv] at h; subst h
+            simp [hs, sigFromPy_of_inferTy v vt hv, Ty.render]
+        · rename_i hs
+          simp at h; subst h; simp [hs, Ty.render]
+  | .obj _ _ _, t, h => by simp [inferTy] at h
+  | .other _, t, h => by simp [inferTy] at h
+theorem sigConcat_of_inferTys : ∀ (xs : List PyVal) (ts : List Ty), inferTys xs = some ts →
+    sigConcat xs = .ok (renderAll ts)
+  | [], ts, h => by simp [inferTys] at h; subst h; simp [sigConcat, renderAll]
+  | x :: xs, ts, h => by
+      simp only [inferTys] at h
+      cases hx : inferTy x with
+      | none => simp [hx] at h
+      | some t =>
+        cases hxs : inferTys xs with
+        | none => simp [hx, hxs] at h
+        | some ts' =>
+          simp [hx, hxs] at h; subst h
+          simp [sigConcat, sigFromPy_of_inferTy x t hx, sigConcat_of_inferTys xs ts' hxs, renderAll]
+theorem sigLastKey_of_inferLastKey : ∀ (kvs : List (PyVal × PyVal)) (t : Ty), inferLastKey kvs = some t →
+    sigLastKey kvs = .ok t.render
+  | [], t, h => by simp [inferLastKey] at h
+  | [(k, _)], t, h => by
+      simp only [inferLastKey] at h
+      simpa [sigLastKey] using sigFromPy_of_inferTy k t h
+  | _ :: p :: rest, t, h => by
+      simp only [inferLastKey] at h
+      simpa [sigLastKey] using sigLastKey_of_inferLastKey (p :: rest) t h
+end
+
 end Txdbus
